@@ -437,6 +437,12 @@ mod worker {
                 async move {
                     let stream_h3 = match stream_quic.upgrade().await {
                         Ok(stream_h3) => stream_h3,
+                        Err(ProtoReadError::H3(ErrorCode::StreamCreation)) => {
+                            // Unknown stream type: reading is aborted, but this is not
+                            // a connection error.
+                            debug!("Unknown stream type, stream discarded");
+                            return;
+                        }
                         Err(ProtoReadError::H3(error_code)) => {
                             h3_slot.send(Err(DriverError::Proto(error_code)));
                             return;
